@@ -154,25 +154,40 @@ CLAIMS["C06"] = ("DESIGN.md §9.7",
 
 # second round: clauses added to existing claims (DESIGN.md §9.6)
 EXTRA = {
-    "C01": (" Also decides that duplicate elimination (merged default graph, both DISTINCTs) tests every item with a key covering the whole item.",
+    "C01": (" Also decides that duplicate elimination (merged default graph, both DISTINCTs) tests every item with a key covering the whole item, "
+            "that UNION / VALUES / the lowering handle every branch, row, triple pattern and group member (filters at group end), and that the "
+            "three walkers read every field of every variant.",
             ", dominance of the seen-set test"),
-    "C02": (" Also decides that the executor's rayon workers range over their whole input (no hand-made batches).", ", iterator-pipeline coverage"),
+    "C02": (" Also decides that the executor's rayon workers range over their whole input (no hand-made batches) and that reordering is a "
+            "permutation with a faithful rebuild of every node.", ", iterator-pipeline coverage, field-position agreement"),
     "C03": (" Also decides that every WHERE solution instantiates every template (no solution skipped or de-duplicated, every quad kept).",
             ", no-skip loop analysis"),
     "C04": (" Also decides that a delete which removes nothing performs no write (no graph identity created or resurrected).", ", controlling conditions of writes"),
-    "C05": (" Also decides that match-or-bind on a binding row is the last write before the row is emitted.", ", T-ORDER on row writes"),
+    "C05": (" Also decides that match-or-bind on a binding row is the last write before the row is emitted, and that the rule join's rayon "
+            "pipelines range over their whole input.", ", T-ORDER on row writes, iterator-pipeline coverage"),
     "C07": (" Also decides that wmc_gradient restores every perturbed weight on every path and that no floating-point division with an "
-            "unguarded runtime divisor is reachable from wmc / wmc_gradient.", ", T-PAIR restore analysis, guarded-division scan over the call graph"),
+            "unguarded runtime divisor is reachable from wmc / wmc_gradient, and that budget exhaustion inside a budgeted operation never ends "
+            "in an Ok return.", ", T-PAIR restore analysis, guarded-division scan over the call graph, failure-edge reachability"),
     "C09": (" Second round: also decides where the first opened interval closes (slide boundary at/after the event, origin t_0 = 0), that "
             "scope() never replaces an open window's container, and that the report strategies are conjunctive.", ", loop linear arithmetic (T-LIN)"),
-    "C11": (" Also decides that no operand of the multi-window / static join is bypassed (an empty operand empties the result).", ", no-skip fold analysis"),
+    "C10": (" Second round: also decides that the multi-thread window worker hands every received content to the processor (one blocking "
+            "receive, no coalescing).", ", worker-loop no-skip analysis"),
+    "C14": (" Second round: also decides that the decoder recognises the closing quote in the same character scan that consumes escapes.",
+            ", single-scanner switch analysis"),
+    "C15": (" Second round: also decides that the recursive decoders carry no state that can veto a component (or restore it on every "
+            "value-yielding path).", ", T-PAIR on visited-set state"),
+    "C08": (" Second round: also decides that in every Result-returning helper the failure edge of a budgeted step never leads to an Ok return.",
+            ", failure-edge reachability"),
+    "C11": (" Also decides that events are routed to windows by comparing whole stream identifiers, and that no operand of the multi-window / static join is bypassed (an empty operand empties the result).", ", no-skip fold analysis"),
     "C12": (" Second round: renewed expiry wins when seeding tags, the conjunction ranges over every matched premise, queued improvements are "
             "consumed, static facts never expire and no component fact is dropped, component IRIs are matched longest first.", ", iterator-pipeline completeness (T-PIPE)"),
-    "C13": (" Also decides that the parallel line loaders hand their workers a total partition of the document's lines.", ", iterator-pipeline coverage"),
+    "C13": (" Also decides that the parallel line loaders hand their workers a total partition of the document's lines, and that a scratch "
+            "cache of term expansions is keyed on everything it depends on.", ", iterator-pipeline coverage, memo-key analysis"),
     "C16": (" Second round: the text matched by the case-insensitive keyword helper never reaches a returned tree, and no sub-parser payload "
             "is parsed and dropped (two audited exceptions).", ", component tracking + taint to the return value"),
     "C18": (" Second round: also decides one-substitution-per-unification, transitive resolution of bindings, and that rule bodies are solved "
-            "as conjunctions (premise loop left only when exhausted or after replacing the solutions).", ", loop exit analysis"),
+            "as conjunctions (premise loop left only when exhausted or after replacing the solutions), and that substitutions are written only by "
+            "unify_terms.", ", loop exit analysis, writer set of the substitution type"),
     "C19": (" Second round: violates_constraints is a disjunction over all constraints, and repair-aware materialisation reloads exactly the "
             "chosen repair into an emptied index.", ", iterator-pipeline completeness"),
 }
